@@ -7,7 +7,18 @@ def _c17_nontrivial(t):
 
 CFG = {
     "module": "Swat4.Properties.C17",
-    "theorems": ["Swat4.C17.placeholder"],
+    "theorems": [
+        "Swat4.C17.accepted_is_routable",
+        "Swat4.C17.routable_is_accepted",
+        "Swat4.C17.accepted_iff_routable",
+        "Swat4.C17.add_table",
+        "Swat4.C17.view_table",
+        "Swat4.C17.never_private_stored",
+        "Swat4.C17.add_body_quad",
+        "Swat4.C17.add_body_table",
+        "Swat4.C17.view_string_table",
+        "Swat4.C17.facts_ok",
+    ],
     "shards": (1, 4),
     "nontrivial": _c17_nontrivial,
     "rule": "wip",
